@@ -206,6 +206,24 @@ def run_faults(ctx, desc):
             if exc is None and got != value:
                 ctx.add("observed_silent_corruption_without_crc")
         ctx.seen("outcomes", f"{'crc' if crc else 'nocrc'}:{c['kind']}:{'ok' if exc is None and got == value else 'wrong' if exc is None else type(exc).__name__}")
+        if fired and exc is not None and crc and c.get("k", 0) % 3 == 0:
+            # the same client afterwards (the application aborts explicitly first, as after any failed transfer): an
+            # undisturbed block upload returns the value - nothing of the failed one (checksum state, counters) is left
+            rig.bus.fault = None
+            try:
+                rig.sdo.abort(0x08000000)
+            except Exception:  # noqa: BLE001
+                pass
+            rig.server.state = "idle"
+            try:
+                again = do_block_upload(rig, c)
+                ctx.count("followup_block_uploads")
+                if again != value:
+                    ctx.violation("followup-block-upload-wrong-data", f"undisturbed block upload after a failed one ({c['kind']}) returned {len(again)} bytes "
+                                  f"differing from the server's {len(value)}", c, rig.wire(30))
+            except Exception as e2:  # noqa: BLE001
+                ctx.violation(f"followup-block-upload-failed:{type(e2).__name__}", f"undisturbed block upload after a failed one ({c['kind']} at {c.get('k')}, "
+                              f"{type(exc).__name__}) raised {e2!r}", c, rig.wire(30))
         rig.close()
 
     def posclass(k):
